@@ -166,6 +166,9 @@ class Lowered:
         except W.WeaveError as e:
             raise Undecided("weave %s: %s" % (self.tag, e))
         open(os.path.join(self.dir, "gen.c"), "w").write(woven)
+        # harness-mode groups compile the UNWOVEN text: a contract that no longer fits the code (renamed local in a loop invariant,
+        # changed loop structure) makes the contract groups undecided, not the lemma harnesses of the same family
+        open(os.path.join(self.dir, "gen_plain.c"), "w").write(gen)
         open(os.path.join(self.dir, "names.h"), "w").write(names)
         self.gen_lines = woven.count("\n")
 
@@ -187,7 +190,8 @@ class Lowered:
                 return ("(%s)" if fid == self.probe else "(!(%s))") % w
             return "(1)"
         body = re.sub(r"VF_KNOWN_GUARD\(\s*(\w+)\s*,((?:[^()]|\((?:[^()]|\((?:[^()]|\([^()]*\))*\))*\))*)\)", kg, body)
-        return ('#include "vf.h"\n#include "names.h"\n#include "gen.c"\n' + "".join(self.fam.common) + "\n" + body)
+        src = "gen.c" if group.mode == "contract" else "gen_plain.c"
+        return ('#include "vf.h"\n#include "names.h"\n#include "%s"\n' % src + "".join(self.fam.common) + "\n" + body)
 
 
 def make_overlays(work, need):
@@ -243,6 +247,11 @@ def run_group(low, g, tier, keep=False, cell=None):
     gname = g.name + ("" if cell is None else "[%s=%d]" % cell)
     cdefs0 = ["-D%s=%d" % cell] if cell else []
     res = {"gdir": gdir, "cdefs": cdefs0, "group": gname, "family": low.tag, "kind": g.kind, "mode": g.mode, "props": g.props, "obligations": [], "status": "OK", "reason": "", "cmds": []}
+    if g.mode == "contract":
+        bad = [f for f in (a.get("enforce", "") + "," + a.get("replace", "")).split(",") if f and f in low.winfo.get("failed", {})]
+        if bad:
+            res.update(status="UNDECIDED", reason="contract no longer fits the code: " + "; ".join("%s: %s" % (f, low.winfo["failed"][f].split("\n")[0]) for f in bad))
+            return res
     timeout = int(int(a.get("timeout", "450" if tier == "quick" else "3000")) * float(os.environ.get("VF_TIMEOUT_SCALE", "1")))
     inc = ["-I", os.path.join(ROOT, "harness"), "-I", os.path.join(ROOT, "tools/cxx2c"), "-I", low.dir, "-I", low.fam.dir]
     cdefs = ["-D%s=%d" % cell] if cell else []
@@ -612,6 +621,9 @@ def check_property(prop, tier, seed, keep=False, only_group=None, only_family=No
                     continue
                 lowered.append(low)
                 for g in gs:
+                    # a variant may name the groups it is for ("groups": regex): cheap extra instantiations in the quick tier
+                    if v.get("groups") and not re.search(v["groups"], g.name):
+                        continue
                     if when_ok(g, v):
                         for cell in split_cells(g, tier):
                             jobs.append((low, g, None, cell))
